@@ -112,7 +112,7 @@ def models(env):
     return m
 
 
-INLINE = [r"^Tablet::re_resolve_replicas(::<.*>)?$"]
+INLINE = [r"(^|::)Tablet::re_resolve_replicas(::<.*>)?$"]
 
 
 def maintenance(ctx, mf, N):
